@@ -118,6 +118,15 @@ def cases(tier, rng):
         if i % 2 == 0:
             p["macros"].append(("rot", ["x", "t"], ("seq", [("gate", "Rx", [("id", "x"), ("id", "t")])])))
             p["body"].insert(0, ("sub", None, [("gate", "rot", [("q", "q", 0), ("num", rng.choice([2.0, 1.0, 0.5, 3]))])]))
+        if n == 3 and i % 2 == 1:
+            # a parallel block whose FIRST branch is a sequential block that starts with a parallel block of gates (and
+            # one whose first branch is a plain gate): shapes on which a pass that builds its result by extending a list
+            # it did not allocate would write into the input
+            X = lambda k: ("gate", "X", [("q", "q", k)])
+            H = lambda k: ("gate", "H", [("q", "q", k)])
+            nest = ("par", [("seq", [("par", [X(0), H(1)]), H(0)]), X(2)])
+            nest2 = ("par", [X(2), ("seq", [("par", [H(0), X(1)]), X(0)])])
+            p["body"].append(("sub", None, [nest, nest2]))
         text = ref.to_text(p)
         try:
             ref.static_valid(p)
